@@ -1912,7 +1912,13 @@ func (m *repoManager) newVersion(parent dvid.UUID, note string, branchname strin
 	}
 	r.RUnlock()
 
-	return child.uuid, r.save()
+	// Saving encodes every node of the repo under that node's read lock.  Release the read lock held on the
+	// parent first: with a writer queued on it (a concurrent merge adding a child) a second read lock by this
+	// goroutine would wait for ever.
+	node.RUnlock()
+	err = r.save()
+	node.RLock()
+	return child.uuid, err
 }
 
 func (m *repoManager) merge(parents []dvid.UUID, note string, mt MergeType) (dvid.UUID, error) {
